@@ -143,6 +143,8 @@ M: List[Tuple[str, str, str, str, str]] = [
     ('c11-revert-subject-escaping', 'C11', 'proxy/http/proxy/server.py',
      "                    upstream_subject.get(keys[key]).replace('\\\\', '\\\\\\\\')\n                    .replace('/', '\\\\/').replace('+', '\\\\+'),",
      "                    upstream_subject.get(keys[key]),"),
+    ('c11-revert-empty-subject-fix', 'C11', 'proxy/http/proxy/server.py',
+     "        subject = subject or '/'\n", ""),
     # ---- C14 ---------------------------------------------------------------
     ('c14-default-port-8080', 'C14', 'proxy/http/parser/parser.py',
      "                    if self._url.port is not None else DEFAULT_HTTP_PORT",
